@@ -121,8 +121,14 @@ func (c *Ctx) lexSweep(inputs [][]byte, space string) {
 	if c.Prop == "C03" || c.Prop == "C04" {
 		spec = c.Driver.Map(reqS)
 	}
+	// the real lexer runs in worker processes: a lexer that hangs or dies must become an observation
+	// (TIMEOUT / CRASH), not a hung or dead check
+	goAll := c.Worker.Map(reqM)
 	for i, in := range inputs {
-		goObs := impl.Call("lex", []string{impl.HexW(in)})
+		goObs := goAll[i]
+		if goObs == "SKIPPED" {
+			continue
+		}
 		c.Ev.Traces++
 		g := ParseLexObs(goObs)
 		c.Ev.Case(goObs, len(g.Toks) >= 2 || (g.Status == "E" && len(g.Toks) >= 1))
@@ -139,7 +145,7 @@ func (c *Ctx) lexSweep(inputs [][]byte, space string) {
 		}
 		switch c.Prop {
 		case "C01":
-			if g.Status == "PANIC" || g.Status == "FUEL" || g.Status == "BAD" {
+			if g.Status == "PANIC" || g.Status == "FUEL" || g.Status == "BAD" || g.Status == "CRASH" || g.Status == "TIMEOUT" {
 				c.Report("runtime", "lexer-"+strings.ToLower(g.Status), fmt.Sprintf("lexing %q: %s", in, goObs), rep())
 			}
 			if g.Status == "E" && !posInside(in, g.ELine, g.ECol) {
